@@ -145,6 +145,13 @@ func findPath(starts []point, edges EdgeFilter, avoid, target InstrPred) []*ssa.
 type boolValFn func(v ssa.Value) (bool, bool)
 
 func findPathV(starts []point, edges EdgeFilter, avoid, target InstrPred, boolVal boolValFn) []*ssa.BasicBlock {
+	return findPathX(starts, edges, avoid, target, boolVal, nil)
+}
+
+// findPathX is findPathV with a probe: probe is called for every instruction reached (in every
+// distinct (block, boolean-phi facts) state) together with an evaluator of boolean values under
+// the facts of that state.
+func findPathX(starts []point, edges EdgeFilter, avoid, target InstrPred, boolVal boolValFn, probe func(in ssa.Instruction, known func(v ssa.Value) (bool, bool))) []*ssa.BasicBlock {
 	if edges == nil {
 		edges = allEdges
 	}
@@ -211,6 +218,10 @@ func findPathV(starts []point, edges EdgeFilter, avoid, target InstrPred, boolVa
 			if avoid != nil && avoid(in) {
 				blocked = true
 				break
+			}
+			if probe != nil {
+				f := cur.facts
+				probe(in, func(v ssa.Value) (bool, bool) { return known(v, f) })
 			}
 			if target != nil && target(in) {
 				return mk(qi)
